@@ -125,6 +125,39 @@ fn write_archive<W: Write>(dest: W, cfg: &Cfg, files: &[(String, u64)], seed: u6
     Ok(w.into_raw())
 }
 
+/// the same bytes written the way a producer pushing records through a pipe does: `start_file`, appends of
+/// `piece` bytes each followed by `flush`, `end_file` — one contiguous run per file however many calls
+/// (a second file takes exactly four interleaved appends, so the number of runs is fixed too)
+fn write_archive_calls<W: Write>(dest: W, cfg: &Cfg, files: &[(String, u64)], seed: u64, mode: u8, piece: u64) -> Result<W, String> {
+    let mut w = ArchiveWriter::from_config(dest, cfg.writer_config()).map_err(|e| format!("open:{}", err_class(&e)))?;
+    for (i, (name, size)) in files.iter().enumerate() {
+        let id = w.start_file(name).map_err(|e| format!("start:{}", err_class(&e)))?;
+        let other = w.start_file(&format!("{name}.side")).map_err(|e| format!("start:{}", err_class(&e)))?;
+        let mut src = GenSrc::new(*size, seed.wrapping_add(i as u64 * 7919), mode);
+        let calls = size.div_ceil(piece.max(1));
+        let mut left = *size;
+        let mut k = 0u64;
+        while left > 0 {
+            let n = left.min(piece);
+            w.append_file_content(id, n, &mut src).map_err(|e| format!("append:{}", err_class(&e)))?;
+            w.flush().map_err(|e| format!("flush:{:?}", e.kind()))?;
+            left -= n;
+            k += 1;
+            if calls >= 8 && k % (calls / 4) == 0 && k / (calls / 4) <= 4 {
+                w.append_file_content(other, 3, &b"abc"[..]).map_err(|e| format!("append:{}", err_class(&e)))?;
+            }
+            if k % 4096 == 0 { beat(); }
+        }
+        w.end_file(id).map_err(|e| format!("end:{}", err_class(&e)))?;
+        w.end_file(other).map_err(|e| format!("end:{}", err_class(&e)))?;
+    }
+    w.finalize().map_err(|e| format!("finalize:{}", err_class(&e)))?;
+    Ok(w.into_raw())
+}
+
+/// piece size of the by-calls cases
+fn piece_for(layers: u8) -> u64 { if layers == 0 { 64 } else { 256 } }
+
 fn repair_stream<R: Read>(src: R, cfg: &Cfg) -> Result<(String, u64), String> {
     let mut rc = cfg.reader_config();
     rc.failsafe_return_only_authenticated_data();
@@ -180,7 +213,10 @@ fn run_case(rep: &mut Report, dir: &std::path::Path, layers: u8, files: &[(Strin
     let t0 = std::time::Instant::now();
     // (a) write
     let f = std::fs::File::create(&path).expect("create scratch archive");
-    let (res, wpeak, wbig) = measured(|| write_archive(FileSink { f, n: 0 }, &cfg, files, seed, mode));
+    let by_calls = label == "calls";
+    let (res, wpeak, wbig) = measured(|| if by_calls { write_archive_calls(FileSink { f, n: 0 }, &cfg, files, seed, mode, piece_for(layers)) } else { write_archive(FileSink { f, n: 0 }, &cfg, files, seed, mode) });
+    // the side files of the by-calls shape hold 3 bytes per interleaved append
+    let side: u64 = if by_calls { files.iter().map(|f| if f.1.div_ceil(piece_for(layers)) >= 8 { 12 } else { 0 }).sum() } else { 0 };
     let sink = match res {
         Ok(s) => s,
         Err(e) => {
@@ -226,7 +262,7 @@ fn run_case(rep: &mut Report, dir: &std::path::Path, layers: u8, files: &[(Strin
     let (lpeak, lbig) = (lpeak.max(lpeak0), lbig.max(lbig0));
     let tl = t0.elapsed().as_secs_f64() - tw - tr;
     match &res {
-        Ok(n) if *n == total => {}
+        Ok(n) if *n == total + side => {}
         Ok(n) => {
             rep.violation("oracle", "C15/linear-works", json!({"stage":"linear"}), &format!("linear extraction delivered {n} bytes for {total}"), case.clone());
             ok = false;
@@ -283,14 +319,15 @@ pub fn run(ctx: &Ctx) -> Report {
         let total = r["total"].as_u64().unwrap_or(MIB);
         let n = r["files"].as_u64().unwrap_or(1).max(1);
         let files: Vec<(String, u64)> = if r["kind"] == "many-files" { many_files(n.saturating_sub(1)) } else { (0..n).map(|i| (format!("f{i:06}"), total / n)).collect() };
-        let p_large = run_case(&mut rep, dir.path(), layers, &files, r["seed"].as_u64().unwrap_or(seed), r["mode"].as_u64().unwrap_or(2) as u8, "replay");
+        let label = if r["kind"] == "calls" { "calls" } else { "replay" };
+        let p_large = run_case(&mut rep, dir.path(), layers, &files, r["seed"].as_u64().unwrap_or(seed), r["mode"].as_u64().unwrap_or(2) as u8, label);
         if let Some(p) = &p_large {
             check_ceiling(&mut rep, "replay", layers, files.len(), total, p, files.len() * PER_FILE);
         }
         // a growth violation: re-measure the smaller size too and compare
         if let (Some(ms), Some(ml), Some(p1)) = (r["mib_small"].as_u64(), r["mib_large"].as_u64(), &p_large) {
             let small = vec![("big/file.bin".to_string(), total / ml.max(1) * ms)];
-            if let Some(p0) = run_case(&mut rep, dir.path(), layers, &small, seed, 2, "replay") {
+            if let Some(p0) = run_case(&mut rep, dir.path(), layers, &small, seed, 2, label) {
                 for (op, a, b) in [("write", p0.write, p1.write), ("repair", p0.repair, p1.repair), ("linear", p0.linear, p1.linear)] {
                     if b > a + TOLERANCE {
                         rep.violation("oracle", "C15/independent-of-size", json!({"stage": op, "layers": layers, "check": "growth"}),
@@ -329,6 +366,32 @@ pub fn run(ctx: &Ctx) -> Report {
                 rep.measurements.insert(format!("growth:layers={}", cfg_for(layers).layers_name()),
                     json!({"mib": [m0, m1], "write": [p0.write, p1.write], "repair": [p0.repair, p1.repair], "linear": [p0.linear, p1.linear]}));
             }
+        }
+    }
+    // the same bytes pushed by many small appends, each followed by a flush (one contiguous run however many
+    // calls): the peak must not depend on the number of calls either
+    for layers in [0u8, L_ENC | L_COMP] {
+        let (m0, m1) = (8u64, if ctx.thorough { 128u64 } else { 64 });
+        let mut pk: Vec<Peaks> = vec![];
+        for mib in [m0, m1] {
+            let total = mib * MIB + 17;
+            let files = vec![("big/file.bin".to_string(), total)];
+            if let Some(p) = run_case(&mut rep, dir.path(), layers, &files, seed, 2, "calls") {
+                check_ceiling(&mut rep, "calls", layers, 2, total, &p, 0);
+                pk.push(p);
+            }
+        }
+        if pk.len() == 2 {
+            let (p0, p1) = (pk[0].clone(), pk[1].clone());
+            for (op, a, b) in [("write", p0.write, p1.write), ("repair", p0.repair, p1.repair), ("linear", p0.linear, p1.linear)] {
+                if b > a + TOLERANCE {
+                    rep.violation("oracle", "C15/independent-of-size", json!({"stage": op, "layers": layers, "check": "growth-by-calls"}),
+                        &format!("peak live heap during {op} grows with the data when it is appended in {}-byte pieces with a flush after each: {a} bytes at {m0} MiB, {b} bytes at {m1} MiB (tolerance {TOLERANCE})", piece_for(layers)),
+                        json!({"kind":"calls","layers":layers,"files":1,"total": m1 * MIB + 17,"op":op,"peak_small":a,"peak_large":b,"mib_small":m0,"mib_large":m1}));
+                }
+            }
+            rep.measurements.insert(format!("growth-by-calls:layers={}", cfg_for(layers).layers_name()),
+                json!({"mib": [m0, m1], "piece": piece_for(layers), "write": [p0.write, p1.write], "repair": [p0.repair, p1.repair], "linear": [p0.linear, p1.linear]}));
         }
     }
     // many tiny files: peak grows at most linearly with the number of files
